@@ -98,15 +98,13 @@ Proof. reflexivity. Qed.
 
 Lemma wf_payee_facts : forall cs code p, wf_payee cs code p = true ->
   all (fun c => negb (is_payee_stop c)) p /\ trim_end p = p /\ starts_not is_sp p /\
-  (code = None -> starts_not (N.eqb 40) p) /\
   (cs = Uncleared -> code = None -> starts_not is_clear_mark p).
 Proof.
   intros cs code p H. unfold wf_payee in H. rewrite !andb_true_iff in H.
-  destruct H as [[[[H1 H2] H3] H4] H5].
+  destruct H as [[[H1 H2] H3] H5].
   split; [exact H1 |]. split; [apply str_eqb_eq; exact H2 |].
-  split; [apply starts_false_not; apply negb_true_iff; exact H3 |]. split.
-  - intros ->. apply starts_false_not. apply negb_true_iff. exact H4.
-  - intros -> ->. apply starts_false_not. apply negb_true_iff. exact H5.
+  split; [apply starts_false_not; apply negb_true_iff; exact H3 |].
+  intros -> ->. apply starts_false_not. apply negb_true_iff. exact H5.
 Qed.
 
 (* the end of the header line: payee, then the line end *)
@@ -123,8 +121,16 @@ Proof.
     rewrite (pmap_ok _ _ trim_end _ _ _ _ E). rewrite Ht. reflexivity.
 Qed.
 
+Lemma no41_all : forall s, no41 s = true -> all (fun c => negb (N.eqb 41 c)) s.
+Proof.
+  intros s H. unfold all, no41 in *. rewrite forallb_forall in *. intros y Hy. specialize (H y Hy).
+  rewrite N.eqb_sym. exact H.
+Qed.
+
+(* the code: present; absent in front of a payee that does not start with `(`; absent in front of
+   a payee that starts with `(` when no `)` follows in the whole rest of the text *)
 Lemma code_fmt : forall c p x, opt_all wf_code c = true -> starts_not is_sp (p ++ 10 :: x) ->
-  (c = None -> starts_not (N.eqb 40) (p ++ 10 :: x)) ->
+  (c = None -> starts (N.eqb 40) p = true -> no41 (p ++ 10 :: x) = true) ->
   opt (terminated paren_str space0) (code_text c ++ p ++ 10 :: x) = POk c (p ++ 10 :: x).
 Proof.
   intros [c |] p x W Hs H40.
@@ -132,13 +138,24 @@ Proof.
     eapply opt_ok. unfold terminated, bind, paren_str, paren, delimited, bind.
     rw (chr_ok 40 (c ++ 41 :: 32 :: p ++ 10 :: x)).
     assert (T : take_till0 (N.eqb 41) (c ++ 41 :: 32 :: p ++ 10 :: x) = POk c (41 :: 32 :: p ++ 10 :: x)).
-    { apply take_till0_ok; [| reflexivity]. unfold wf_code in W. unfold all.
-      rewrite forallb_forall in *. intros y Hy. specialize (W y Hy). rewrite N.eqb_sym. exact W. }
+    { apply take_till0_ok; [| reflexivity]. apply no41_all. exact W. }
     rw T. rw (chr_ok 41 (32 :: p ++ 10 :: x)). unfold ret at 1. cbv beta iota.
     change (32 :: p ++ 10 :: x) with ([32] ++ p ++ 10 :: x).
     rw (space0_ok [32] (p ++ 10 :: x) ltac:(reflexivity) Hs). reflexivity.
-  - cbn [code_text app]. eapply opt_none. unfold terminated. apply bind_err.
-    unfold paren_str, paren, delimited. apply bind_err. apply chr_fail. apply H40. reflexivity.
+  - cbn [code_text app].
+    destruct (starts (N.eqb 40) p) eqn:E40.
+    + (* the code parser runs to the end of the text and fails there *)
+      eapply opt_none. unfold terminated. apply bind_err. unfold paren_str, paren, delimited.
+      specialize (H40 eq_refl eq_refl).
+      destruct p as [| c0 p']; [discriminate |]. cbn [starts] in E40. apply N.eqb_eq in E40. subst c0.
+      cbn [app] in *. unfold bind. rw (chr_ok 40 (p' ++ 10 :: x)).
+      assert (A : all (fun c => negb (N.eqb 41 c)) (p' ++ 10 :: x)).
+      { apply no41_all. unfold no41 in *. cbn [forallb] in H40. apply andb_true_iff in H40. tauto. }
+      pose proof (take_till0_ok (N.eqb 41) (p' ++ 10 :: x) [] A I) as T. rewrite app_nil_r in T.
+      rw T. reflexivity.
+    + eapply opt_none. unfold terminated. apply bind_err. unfold paren_str, paren, delimited.
+      apply bind_err. apply chr_fail. destruct p as [| c0 p']; cbn [app]; [reflexivity |].
+      cbn [starts] in E40. unfold starts_not. exact E40.
 Qed.
 
 Lemma fmt_date_head : forall d, wf_date d = true -> exists c r, fmt_date d = c :: r /\ Comb.is_digit c = true.
@@ -151,13 +168,15 @@ Proof.
 Qed.
 
 Theorem transaction_fmt : forall w fuel t k, wf_txn t = true -> follow_txn k ->
+  (open_paren_payee t = true -> no41 (print_txn w t ++ k) = true) ->
   (length (print_txn w t ++ k) <= fuel)%nat ->
   exists t' sps, transaction fuel (print_txn w t ++ k) = POk (t', sps) k /\ same_txn t t'.
 Proof.
-  intros w fuel [d ed cs code payee posts md] k W F L.
+  intros w fuel [d ed cs code payee posts md] k W F OP L.
+  unfold open_paren_payee in OP.
   unfold wf_txn in W. cbn [st_date st_edate st_clear st_code st_payee st_posts st_metadata] in W.
   rewrite !andb_true_iff in W. destruct W as [[[[[Wd We] Wc] Wp] Wm] Wps].
-  destruct (wf_payee_facts _ _ _ Wp) as (Pa & Pt & Ps & P40 & Pm).
+  destruct (wf_payee_facts _ _ _ Wp) as (Pa & Pt & Ps & Pm).
   unfold print_txn in *. rewrite txn_header_parts in *.
   cbn [st_date st_edate st_clear st_code st_payee st_posts st_metadata] in *.
   set (POSTS := flat_map (print_posting w) posts) in *.
@@ -179,8 +198,10 @@ Proof.
   (* the payee and what precedes it *)
   assert (PNs : starts_not is_sp (payee ++ 10 :: X)).
   { destruct payee; [reflexivity | exact Ps]. }
-  assert (P40' : code = None -> starts_not (N.eqb 40) (payee ++ 10 :: X)).
-  { intros E. specialize (P40 E). destruct payee; [reflexivity | exact P40]. }
+  assert (P40' : code = None -> starts (N.eqb 40) payee = true -> no41 (payee ++ 10 :: X) = true).
+  { intros E E40. subst code. specialize (OP E40). unfold no41 in *.
+    rewrite !forallb_app in OP. cbn [forallb] in OP. rewrite !forallb_app in OP.
+    rewrite !andb_true_iff in OP. rewrite forallb_app. cbn [forallb]. rewrite !andb_true_iff. tauto. }
   pose proof (code_fmt code payee X Wc PNs P40') as Ecode.
   pose proof (payee_fmt payee X Pa Pt) as Epayee.
   set (Z2 := code_text code ++ payee ++ 10 :: X) in *.
